@@ -4,6 +4,9 @@
 //             accept-once oracle
 //   net.go    black-box: two real muxers over the scheduling in-memory MsgConn pair; concurrent tube creation
 //             from both sides, per-tube streams and messages, identifier reuse with held-back datagrams
+//   roles.go  which end of a session picks which identifiers: a real hopclient<->hopserver session (roles observed,
+//             two-ended concurrent creation), bare muxer pairs with the roles the application chose, and the
+//             same-role collision witness
 package main
 
 import (
@@ -16,10 +19,13 @@ func main() {
 	defer hv.Flush()
 	r := hv.NewRand(hv.Seed())
 	only := os.Getenv("C09_ONLY") // debugging aid: "net" or "white"
-	if only != "net" {
+	if only != "net" && only != "roles" {
 		genWhite(r)
 	}
-	if only != "white" {
+	if only != "white" && only != "roles" {
 		genNet(r)
+	}
+	if only == "" || only == "roles" {
+		genRoles(r)
 	}
 }
